@@ -26,6 +26,10 @@ REPAIRED DEFECT (fixed in /repo by a `fix:` commit; the model follows the repair
 * tokens synthesised by `paste`, `new_str_token`, `new_num_token` kept `line_no = 1` (their one-line private buffer),
   so a diagnostic or `.loc` for a pasted / stringized / `__LINE__`-made token said line 1.  Now they take the template
   token's `line_no`.  `synthTokOld` below is the pre-fix behaviour.
+
+* `convert_universal_chars` rewrote `\u000a` / `\U0000000a` into a real '\n' — also inside comments, where the spelling is
+  legal — so `/* \u000a */` shifted the number of every later line of the file by one.  Now it leaves that name alone
+  (`c && c != '\n'`), and `C18_ucn_lines_kept` holds without hypothesis.  `convertUCNAuxOld` below is the pre-fix pass.
 -/
 import ChibiVerif.Props.C18
 
@@ -70,11 +74,34 @@ theorem C18_fixed_synth_token_line :
     (synthTokOld { file := .input 0, lineNo := 8 }).lineNo = 1 ∧
     (synthTok { file := .input 0, lineNo := 8 }).lineNo = 8 := by decide
 
-/-- the hypothesis `noNewlineUCN` of `C18_ucn_lines_kept` / `C18_line_final_partial` is needed: `"\u000a"⏎x` (not valid C:
-    6.4.3p2) — `convert_universal_chars` writes a real newline, and `x` (file offset 9, physical line 2) is numbered 3.
-    Not a finding (the input violates a constraint); recorded so that the hypothesis is seen to be sharp. -/
-theorem C18_ucn_newline_shifts :
-    let f := [34, 92, 117, 48, 48, 48, 97, 34, 10, 120, 10]
-    noNewlineUCN (sourceText f) = false ∧ lineNoAt f 9 = 2 ∧ lineNoFinal f 9 = 3 := by decide
+/-- pre-fix `convert_universal_chars`: `if (c)` instead of `if (c && c != '\n')` — a universal character name for U+000A was
+    rewritten into a real newline, also inside comments -/
+def convertUCNAuxOld : Nat → List Nat → Nat → List (Nat × Nat)
+  | 0, _, _ => []
+  | _ + 1, [], _ => []
+  | f + 1, a :: rest, s =>
+    if a = BSL then
+      match rest with
+      | [] => [(a, s)]
+      | b :: rest' =>
+        if b = 117 then
+          let c := readUniversalChar rest' 4 0
+          if c ≠ 0 then (encodeUtf8 c).map (·, s) ++ convertUCNAuxOld f (rest'.drop 4) (s + 6)
+          else (a, s) :: convertUCNAuxOld f rest (s + 1)
+        else if b = 85 then
+          let c := readUniversalChar rest' 8 0
+          if c ≠ 0 then (encodeUtf8 c).map (·, s) ++ convertUCNAuxOld f (rest'.drop 8) (s + 10)
+          else (a, s) :: convertUCNAuxOld f rest (s + 1)
+        else (a, s) :: (b, s + 1) :: convertUCNAuxOld f rest' (s + 2)
+    else (a, s) :: convertUCNAuxOld f rest (s + 1)
+
+/-- `/* \u000a */⏎x⏎` (valid C: a comment may contain anything) — `x` is at file offset 13, physical line 2 -/
+def ucnWitness : List Nat := [47, 42, 32, 92, 117, 48, 48, 48, 97, 32, 42, 47, 10, 120, 10]
+
+/-- repaired defect: the old pass numbered `x` 3 (its text had a newline more before `x`); the repaired pass numbers it 2 -/
+theorem C18_fixed_ucn_newline_in_comment :
+    let old := convertUCNAuxOld ((sourceText ucnWitness).length + 1) (sourceText ucnWitness) 0
+    lineNoOf (old.map (·.1)) (old.findIdx (fun e => e.2 == posMap ucnWitness 13)) = 3 ∧
+    lineNoFinal ucnWitness 13 = 2 ∧ physLine ucnWitness 13 = 2 := by decide
 
 end ChibiVerif.Findings.C18
